@@ -27,7 +27,7 @@ func init() {
 				Doc: "After an install the values handed downstream (request/response wrappers, mux, plain handler, recover handler) are the compressing writer; the raw writer is used after an install only on the failure path. CompressingResponseWriter.Write forwards every byte to compressor.Write. Otherwise plain bytes are sent under a gzip label."},
 			{ID: "C07.f", Template: "T-PROV", Required: true, Run: ruleC10b,
 				Doc: "The recover handler is a downstream writer too: it receives the active (compressing) writer and runs before the deferred Close (same obligation as C10.b), otherwise a recovered-panic response carries raw bytes under a Content-Encoding label or loses its body."},
-			{ID: "C07.g", Template: "T-TYPESTATE", Required: true, Run: ruleC13a,
+			{ID: "C07.g", Template: "T-TYPESTATE", Required: true, Run: ruleC13aWriters,
 				Doc: "The encoder is finished before its compressor is handed back: Close calls compressor.Close() (trailer) before releasing, releases once, clears the field (same obligation as C13.a). A compressor released early is reset by the next response while this one still has unflushed data."},
 			{ID: "C07.e", Template: "T-DEFER", Required: true, Run: ruleC07e,
 				Doc: "In each install function a defer that closes the active writer when it is a *CompressingResponseWriter is registered on a block dominating the install: the trailer is written on normal, error and panic exits, exactly once (Close itself refuses a second close, C13.a)."},
